@@ -82,6 +82,11 @@ CLAIMED = {
             "of the table-scorer detector runs without exception; plus a concrete grid of data lengths around the "
             "minimum and NaN positions with the built-in scorers",
             "4.C14"),
+    "C12": ("scorers on symbolic data evaluated on X and on the transformed X (column permutation, symbolic per-column "
+            "shift, symbolic positive scale with instantiated log(ab) lemma, time reversal) in the same path: z3 (NRA) "
+            "decides equality of the two terms for every cut; detectors with column-permuted table scorers, PELT on the "
+            "reversed and on the length-shifted cost table, MovingWindow on shifted symbolic data (product runs)",
+            "4.C12"),
 }
 PENDING = {}
 TITLES = {}
